@@ -360,7 +360,7 @@ func agree(what string, got any, gok bool, want any, wok bool, mode agreeMode) e
 
 func isStructVal(v any) bool {
 	switch v.(type) {
-	case subT, *subT, RootBase, *RootBase:
+	case subT, *subT, RootBase, *RootBase, BaseN, *BaseN, Deep2, *Deep2:
 		return true
 	}
 	return false
@@ -1004,6 +1004,9 @@ func TestProp(t *testing.T) {
 					if (root.Kind == "struct" || root.Kind == "ptr") && known.Open(kfTagOverName) {
 						c.EnvSkip = append(c.EnvSkip, "Kind") // region of the open finding
 						rec.Excluded(kfTagOverName)
+					}
+					if root.Data != nil && root.Data.K == "page" {
+						c.Names = pageUniverse
 					}
 					if root.Data != nil && root.Data.K == "eroot" {
 						c.Names = eNames(known.Open(kfPromotedTag))
